@@ -240,6 +240,9 @@ func (c25) Execute(sc *engine.Scenario) *engine.Result {
 			return res
 		}
 		res.Cycles += in.m.N
+		if len(pts) > 0 {
+			res.Digest ^= pts[len(pts)-1] + uint64(i)
+		}
 		if in.m.Spk != nil {
 			in.m.GB.Cleanup()
 		}
